@@ -311,6 +311,49 @@ func metaShapes(part int) {
 	ctx.NontrivialN(int64(derived))
 }
 
+// metaValues: well-formed meta events with every combination of boundary
+// bytes as payload: all 65536 two-byte payloads for every type, and for the
+// types with a fixed layout (tempo 3, time signature 4, SMPTE offset 5,
+// sequence number 2, key signature 2) every payload over 13 boundary bytes.
+func metaValues(part, parts int) {
+	for t := part; t < 128; t += parts {
+		b := []byte{0xFF, byte(t), 2, 0, 0}
+		for x := 0; x < 256; x++ {
+			for y := 0; y < 256; y++ {
+				b[3], b[4] = byte(x), byte(y)
+				judgeSMF(b)
+			}
+		}
+		b1 := []byte{0xFF, byte(t), 1, 0}
+		for x := 0; x < 256; x++ {
+			b1[3] = byte(x)
+			judgeSMF(b1)
+		}
+	}
+	edge := []byte{0x00, 0x01, 0x02, 0x07, 0x08, 0x09, 0x0B, 0x0C, 0x7F, 0x80, 0xF9, 0xFE, 0xFF}
+	n := 0
+	for _, tl := range [][2]byte{{0x51, 3}, {0x58, 4}, {0x54, 5}} {
+		idx := make([]int, tl[1])
+		rad := make([]int, tl[1])
+		for i := range rad {
+			rad[i] = len(edge)
+		}
+		for {
+			n++
+			if n%parts == part {
+				b := []byte{0xFF, tl[0], tl[1]}
+				for _, i := range idx {
+					b = append(b, edge[i])
+				}
+				judgeSMF(b)
+			}
+			if !engine.Odometer(idx, rad) {
+				break
+			}
+		}
+	}
+}
+
 // longLengthFields: meta messages whose length field has up to 12
 // continuation bytes (no constructor or reader produces them; the accessors
 // must still not panic), with and without payload.
@@ -422,6 +465,7 @@ func main() {
 	ctx.Jobs("short", 256, func(j int) { short(j) })
 	ctx.Jobs("long", len(alpha12), func(j int) { long(j) })
 	ctx.Jobs("meta-shapes", 16, func(j int) { metaShapes(j) })
+	ctx.Jobs("meta-values", 16, func(j int) { metaValues(j, 16) })
 	ctx.Jobs("constructed", 1, func(int) { constructed() })
 	ctx.Jobs("long-length-fields", 1, func(int) { longLengthFields() })
 	ctx.Jobs("text-contents", 16, func(j int) { textContents(j, 16) })
